@@ -40,10 +40,11 @@ def run(prog, rep, tier):
     r4_2(prog, rep)
     r4_3(prog, rep)
     r4_4(prog, rep)
-    n = shared.ownership_rule(prog, rep, "R4.5", which=("Term",))
-    if n < 14:
-        raise AnalysisError(f"R4.5: only {n} Term(...) constructor sites found (floor 14)")
+    n = shared.ownership_rule(prog, rep, "R4.5")
+    if n < 8:
+        raise AnalysisError(f"R4.5: only {n} Term(...) constructor sites found (floor 8)")
     r4_6(prog, rep)
+    shared.dtype_narrowing(prog, rep, "R4.7")
     rep.floor("R4.1", 6)
     rep.floor("R4.2", 12)
     rep.floor("R4.3", 5)
